@@ -559,7 +559,30 @@ def check_grammar(rec, rules, feats, budget, stream):
         rec.fail({"rules": rules, "words": words, "features": sorted(feats)}, r[0], r[1])
 
 
+def _lr(name, tail_lit, base_items, recursive_first):
+    """rule `name: name tail | base` (or base first): left recursion over a base that may itself be left-recursive"""
+    rec_alt = [[["l", ["ref", name]], ["t", peg.L(tail_lit)]], '("%s", l, t.string)' % name]
+    base_alt = [base_items, None]
+    return [name, False, [rec_alt, base_alt] if recursive_first else [base_alt, rec_alt]]
+
+
 HAND_GRAMMARS = {
+    # left-recursive rules nested in each other, the recursive alternative first or last at either level
+    **{
+        f"nested-leftrec-{int(o1)}{int(o2)}": [
+            ["start", False, [[[["e", ["ref", "r1"]], [None, ["tok", "ENDMARKER"]]], '("S", e)']]],
+            _lr("r1", "a", [[None, ["ref", "r2"]]], o1),
+            _lr("r2", "c", [[None, peg.L("b")]], o2),
+        ]
+        for o1 in (True, False)
+        for o2 in (True, False)
+    },
+    "nested-leftrec-3": [
+        ["start", False, [[[["e", ["ref", "r1"]], [None, ["tok", "ENDMARKER"]]], '("S", e)'], [[["e", ["ref", "r1"]]], '("P", e)']]],
+        _lr("r1", "a", [[None, ["ref", "r2"]]], True),
+        _lr("r2", "c", [[None, ["ref", "r3"]]], False),
+        ["r3", True, [[[[None, peg.L("b")]], None], [[["l", ["ref", "r3"]], [None, peg.L(",")], ["n", ["tok", "NAME"]]], '("r3", l, n.string)']]],
+    ],
     "leftrec": [["start", False, [[[["e", ["ref", "expr"]], [None, ["tok", "ENDMARKER"]]], '("S", e)']]],
                 ["expr", False, [[[["l", ["ref", "expr"]], [None, peg.L("(")], ["r", ["ref", "term"]]], '("add", l, r)'], [[[None, ["ref", "term"]]], None]]],
                 ["term", False, [[[[None, peg.L("a")], ["e", ["ref", "expr"]], [None, peg.L(")")]], '("par", e)'], [[["n", ["tok", "NAME"]]], '("n", n.string)'], [[["n", ["tok", "NUMBER"]]], None]]]],
